@@ -567,8 +567,28 @@ func oracleC16(o *Outcome) []Violation {
 		if b == nil {
 			continue
 		}
+		// every probe is sent twice in either phase; the four answers belong together (a plan that
+		// the minimiser has thinned out may lack one: nothing is compared then)
+		if base := strings.SplitN(id, ":", 2)[0]; live[base+":1"] == nil || live[base+":2"] == nil || fresh[base+":1"] == nil || fresh[base+":2"] == nil {
+			continue
+		}
 		if a.Kind == "refused" && readded(o.Plan, a.R.Addr) && !retriedAfterRelease(o, a.R.Addr) {
 			continue // reported once as readded-server-not-listening
+		}
+		timedOut := false
+		for _, v := range []*View{a, b} {
+			for _, u := range v.OwnUps {
+				if u.TimedOut {
+					timedOut = true
+				}
+			}
+		}
+		if timedOut {
+			// the location's proxy timeout fired while the reply was withheld by the scheduler and the
+			// clock moved (clock actions, a health check of a black-holed server): the scheduler's
+			// doing, in whichever of the two phases it happened
+			o.Hist.Probes["probe-pair-skipped-after-proxy-timeout"]++
+			continue
 		}
 		o.Hist.Probes["probe-pairs-compared"]++
 		va, vb := obsVector(o, a), obsVector(o, b)
